@@ -317,7 +317,8 @@ def r5_predicates(ctx, prog):
                 r.ok(f['qname'], site, 'as required', file=f['file'], line=f['line'])
     # sessionClosed: the session's own handle is erased and the last close purges the slot
     f = prog.fn('HandleManager::sessionClosed')
-    o = Outcomes(f, prog, cenv={re.compile(r'operator==\(.*,end\(handles\)\)'): 0, re.compile(r'.*\.kind'): KS, re.compile(r'.*\.slotID'): SLOT + 1, 'hSession': HS, 'slotID': SLOT,
+    o = Outcomes(f, prog, cenv={re.compile(r'operator==\(.*,end\(handles\)\)'): 0, re.compile(r'.*\.kind'): KS, re.compile(r'operator->\(find\(.*\)\)\.second\.slotID'): SLOT,
+                                re.compile(r'.*\.slotID'): SLOT + 1, 'hSession': HS, 'slotID': SLOT,
                                 re.compile(r'.*\.hSession'): HS + 1}, record_calls={'erase', 'allSessionsClosed'})
     o.LOOP_ROUNDS = 2
     o.go()
